@@ -675,6 +675,8 @@ def repr_coupling(run, model, rule="C06.repr-coupling"):
         if fi.name == "visit_JoinedStr":
             if descends:
                 bad = bad or (fi.node, "f-strings are shown as a whole; descending into their parts is not expected")
+        elif not descends and fi.name == "visit_Name":
+            pass  # a Name is a leaf: its only child is the field-less context, there is nothing to descend into
         elif not descends:
             bad = bad or (fi.node, "the method does not descend into the children of the node (their values are never shown)")
         else:
